@@ -262,7 +262,7 @@ fn main() {
     let mut table: Vec<(&'static str, usize, CaseFn)> = Vec::new();
     table!(table; i8 u8 i16 u16 I24 U24 i32 u32 I48 U48 i64 u64 f32 f64);
     if let Some(v) = ctx.replay_case() {
-        guard::enter(&v.to_string());
+        let _guard_scope = guard::scoped(&v.to_string());
         let fmt = v["fmt"].as_str().unwrap_or("");
         let n = v["n"].as_u64().unwrap_or(0) as usize;
         let var = v["variant"].as_u64().unwrap_or(0) as usize;
@@ -277,7 +277,7 @@ fn main() {
     for (fmt, n, f) in &table {
         for variant in 0..9usize {
             let case = json!({"sys":"frame","fmt":fmt,"n":n,"variant":variant});
-            guard::enter(&case.to_string());
+            let _guard_scope = guard::scoped(&case.to_string());
             evals += 1;
             let f = *f;
             match catch(|| f(variant)) {
